@@ -138,6 +138,8 @@ Definition lca_valid (en : env) (st : pstate) (l : lca) : bool :=
         then negb (hashes_differ l t)               (* same height: a correctly derived header *)
         else l_trusting_ok l)                       (* else one skipping step: > 1/3 of [vals] signed *)
     && l_light_ok l                                 (* > 2/3 of the conflicting set signed *)
+    && forallb (fun s => negb (cs_flag s =? block_id_flag_commit) || cs_ok s) (l_sigs l)
+                                                    (* and no signature for the block is a fake *)
     && (l_total l =? vs_total vals)
     && negb ((th <? l_height l) && (h_time t <? l_ctime l))  (* ahead of us: must break time monotonicity *)
     && negb (h_hash t =? l_chash l)%N               (* a different block *)
